@@ -1,84 +1,178 @@
 import IoraModel.Lemmas.Teardown
 import IoraModel.Lemmas.EngineQueue
 import IoraModel.Model.TsyncFacts
+import IoraModel.Model.TeardownFacts
 /-!
 # C05 — Stopping or destroying a transport never strands, crashes or races   (PARTIAL)
 
 What is decided here is the LOGIC CORE of the teardown handshake, over `Model/Teardown.lean` (one step = one `syncMutex`
-critical section of `transport_impl.hpp`) and `Model/EngineQueue.lean` (the command queue of `tcp_engine.hpp`), for ALL step
-sequences that respect the environment contract `Disciplined` (no synchronous call BEGINS once the destructor's wait has
-completed; `stop()` is not concurrent with destruction):
+critical section of `transport_impl.hpp`) and `Model/EngineQueue.lean` (the command queue of `tcp_engine.hpp` AND
+`udp_engine.hpp`), for ALL step sequences that respect the environment contract `Disciplined` (no synchronous call BEGINS once
+the destructor's wait has completed; a thread inside `stop()` holds a reference, so the last reference is not dropped while a
+`stop()` is joining and `stop()` is not called once destruction has begun):
 
-* T1 no stranded caller, T2 the counters gate destruction and touching `Impl` after its destruction is unreachable, T3 the entry
-  fence, T4 enqueue-after-close is refused and every accepted listener promise is fulfilled exactly once, T5 callbacks are
-  confined to I/O-thread steps (and the caller-thread flush) and none follows the return of `stop()`.
+* T1 no stranded caller (finite path per thread — existential —, no lost wake-up incl. the receive notification of the
+  already-stopped and I/O-thread paths, no dead end: destruction and `stop()` can always complete within a bound),
+  T2 the counters gate destruction and touching `Impl` after its destruction is unreachable — for all three branches of
+  `~Transport` (ordinary thread, I/O thread inside a callback, flusher inside its data callback = FC05a),
+  T3 the entry fence, T4 enqueue-after-close is refused and every accepted listener promise is fulfilled exactly once (both
+  engines; `_running` cleared by the stop CAS, by detachForTermination or by the Shutdown command; restart),
+  T5 callbacks by counting: confined to I/O-thread steps / the flusher's own loop step, at most one close callback per session,
+  none after `stop()` returned, none after `Impl` is gone, T6 a synchronous call made from a callback on the I/O thread is refused.
 
 What a Lean model cannot exhibit and is therefore NOT claimed: use-after-free and data races of the real C++ object graph, and
-wall-clock bounds ("within a bounded time" is proved as a bound on the thread's own steps).  Those parts are explored by the
-DetSched/ASan/TSan runs of `props/c05.py` — supporting evidence and failing-input search, not the decision.
+wall-clock bounds ("within a bounded time" is proved as a bound on steps).  Those parts are explored by the DetSched/ASan/TSan
+runs of `props/c05.py` — supporting evidence and failing-input search, not the decision.
 -/
 namespace Iora.C05
 open Iora Iora.Teardown
 
-/-- The regenerated skeletons have the facts the models assume: the fence is written and notified under `syncMutex`; the guards
-are paired inc/dec + notify of `teardownCv`; every park site checks the fence and constructs its guard(s) under the lock before
-waiting; `performTeardown` is fence → `engine->stop()` → wait-out(false) / already stopped → wait-out(true); `enqueue` tests
-`_cmdsClosed` under `_cmdMutex`; `shutdownDrain` closes the queue and takes the residual under one acquisition and fails its
-promises; `process` fulfils a promise in both arms; `addListener` returns before waiting when refused; `stop()` joins. -/
+/-- The regenerated lock/notify skeletons (`Gen/TsyncSkel.lean`, shared with C03/C04) have the facts the models assume: the fence
+is written and notified under `syncMutex`; the guards are paired inc/dec + notify of `teardownCv`; every park site checks the
+fence and constructs its guard(s) under the lock before waiting; `performTeardown` is fence → `engine->stop()` → wait-out(false) /
+already stopped → wait-out(true); `enqueue` tests `_cmdsClosed` under `_cmdMutex`; `shutdownDrain` closes the queue and takes the
+residual under one acquisition and fails its promises; `process` fulfils a promise in both arms; `addListener` returns before
+waiting when refused; `stop()` joins. -/
 theorem skeleton_conforms :
     TsyncFacts.fenceUnderLockAndNotifies = true ∧ TsyncFacts.guardsPaired = true ∧ TsyncFacts.parkSitesGuarded = true ∧
     TsyncFacts.teardownOrder = true ∧ TsyncFacts.enqueueChecksClosedUnderLock = true ∧
     TsyncFacts.drainClosesQueueUnderLock = true ∧ TsyncFacts.processFulfilsPromises = true ∧
     TsyncFacts.addListenerRejectsBeforeWaiting = true ∧ TsyncFacts.stopJoins = true := by decide
 
+/-- The regenerated statement-level skeletons (`Gen/TeardownSkel.lean`) have the shapes the models mirror — `~Transport` with its
+three branches and the argument of every `teardownWaitOut` call, `teardownWaitOut` with `if (notifyReceive)` and a gate over all
+three counters, `performTeardown`, `setTeardownFence`, the flush frame (FC05a), the I/O-thread guards of the four synchronous
+operations on thread identity alone; for BOTH engines: enqueue, shutdownDrain, process, addListener, stop (CAS → enqueue → join),
+detachForTermination (clears `_running` with no command), scheduleSelfDestruct, the thread epilogue (deleter LAST), the loop exits —
+and the values the models are instantiated with are the ones the theorems below are about. -/
+theorem teardown_skeleton_conforms :
+    TeardownFacts.dtorShape = true ∧ TeardownFacts.waitOutShape = true ∧ TeardownFacts.performTeardownShape = true ∧
+    TeardownFacts.fenceShape = true ∧ TeardownFacts.flushFrameShape = true ∧ TeardownFacts.ioGuardsShape = true ∧
+    TeardownFacts.enqueueRefusesWhenClosed = true ∧ TeardownFacts.drainClosesAndTakesUnderOneLock = true ∧
+    TeardownFacts.residualPromisesFailed = true ∧ TeardownFacts.dispatchFulfilsNormalArm = true ∧
+    TeardownFacts.dispatchFulfilsCatchArm = true ∧ TeardownFacts.shutdownCommandClearsRunning = true ∧
+    TeardownFacts.stopIsCasEnqueueJoin = true ∧ TeardownFacts.detachClearsRunning = true ∧
+    TeardownFacts.selfDestructStored = true ∧ TeardownFacts.epilogueRunsDeleterLast = true ∧
+    TeardownFacts.loopsExitIntoDrain = true ∧ TeardownFacts.addListenerRejectsBeforeWaiting = true ∧
+    TeardownFacts.parkGuardsWholeCall = true ∧
+    nrIo = true ∧ nrStopped = true ∧ nrNormal = false ∧
+    gated "activeReceives" = true ∧ gated "activeConnects" = true ∧ gated "activeFlushes" = true ∧
+    ioBranchIdentityOnly = true ∧ (∀ op, guardIdentityOnly op = true) := by
+  refine ⟨by decide, by decide, by decide, by decide, by decide, by decide, by decide, by decide, by decide, by decide, by decide,
+    by decide, by decide, by decide, by decide, by decide, by decide, by decide, by decide, by decide, by decide, by decide,
+    by decide, by decide, by decide, by decide, guard_ok⟩
+
 /-- reachable states: any number of application threads about to make a receive / connect / flush call, any set of open
 sessions, any disciplined schedule -/
 def Reach (s : State) : Prop :=
   ∃ threads live steps, (∀ t ∈ threads, t.pc = .notStarted) ∧ Disciplined (mk threads live) steps ∧ s = run (mk threads live) steps
 
-theorem reach_inv {s : State} (h : Reach s) : Inv s := by
+theorem reach_inv {s : State} (h : Reach s) : Inv s ∧ Inv2 s := by
   obtain ⟨threads, live, steps, h0, hd, rfl⟩ := h
-  exact run_inv steps _ (Inv_mk threads live h0) hd
+  exact run_inv steps _ (Inv_mk threads live h0) (Inv2_mk threads live h0) hd
 
-/-- **T1 (finite path).** In every reachable state, every thread that is inside a synchronous call — parked in receiveSync or
-connectSync, in connectSync's close window, or anywhere in the flush loop — reaches its return within THREE steps of its own,
-whatever the other threads do or do not do (a timed wait can always take its timeout). "Bounded time" is this step bound. -/
+/-- reachable states are closed under steps that respect the contract -/
+theorem reach_step {s : State} (h : Reach s) (st : Step) (hok : ok s st = true) : Reach (step s st) := by
+  obtain ⟨threads, live, steps, h0, hd, rfl⟩ := h
+  refine ⟨threads, live, steps ++ [st], h0, ?_, ?_⟩
+  · have app : ∀ (l : List Step) (s0 : State), Disciplined s0 l → ok (run s0 l) st = true → Disciplined s0 (l ++ [st]) := by
+      intro l
+      induction l with
+      | nil => intro s0 _ h1; exact ⟨h1, trivial⟩
+      | cons a rest ih => intro s0 h1 h2; exact ⟨h1.1, ih _ h1.2 h2⟩
+    exact app steps _ hd hok
+  · have app : ∀ (l : List Step) (s0 : State), run s0 (l ++ [st]) = step (run s0 l) st := by
+      intro l
+      induction l with
+      | nil => intro s0; rfl
+      | cons a rest ih => intro s0; exact ih _
+    exact (app steps _).symm
+
+/-- **T1 (finite path; EXISTENTIAL).** In every reachable state, every thread that is inside a synchronous call and counted by
+the gate — parked in receiveSync or connectSync, in connectSync's close window, or anywhere in the flush loop — HAS a path to its
+return of at most THREE steps of its own, whatever the other threads do or do not do (a timed wait can always take its
+timeout). This says a return is always possible, not that every schedule takes it; "bounded time" is this step bound. -/
 theorem T1_finite_path (s : State) (hr : Reach s) (i : Nat) (t : Thread) (hi : s.threads[i]? = some t)
     (hin : inside t.pc = true) :
     ∃ steps : List Step, steps.length ≤ 3 ∧ ∃ t' r, (run s steps).threads[i]? = some t' ∧ t'.pc = .done r :=
-  finite_path hi ((reach_inv hr).KP i t hi) hin
+  finite_path hi ((reach_inv hr).1.KP i t hi) hin
 
 /-- **T1 (no lost wake-up).** In every reachable state: once the fence is set every parked connectSync has been notified; a
 parked connectSync whose completion was delivered has been notified; a parked receiveSync whose session was closed has been
-notified; after a `teardownWaitOut(true)` entry section every parked receiveSync has been notified; and the destructor is never
-asleep on `teardownCv` with all three counters at zero. (On the NORMAL path receivers are deliberately not notified by the
-fence: `engine->stop()`'s onClose wakes those whose session the engine closes, the others leave by their own timeout — T1_finite_path.) -/
+notified; after a receive-notifying entry section of `teardownWaitOut` every parked receiveSync has been notified — and that
+section HAS run whenever the destructor took the ALREADY-STOPPED path or runs on the I/O thread (on those paths no close
+callback will wake a receiver: the I/O thread is gone, or is the one that waits); and the destructor is never asleep on
+`teardownCv` with all three counters at zero. (On the NORMAL path receivers are deliberately not notified by the fence:
+`engine->stop()`'s onClose wakes those whose session the engine closes, the others leave by their own timeout — T1_finite_path.) -/
 theorem T1_no_lost_wakeup (s : State) (hr : Reach s) :
     (s.shuttingDown = true → ∀ (j : Nat) (t : Thread) (a : Bool), s.threads[j]? = some t → t.kind = .conn → t.pc = .parked a → a = true) ∧
     (∀ (j : Nat) (t : Thread) (a : Bool), s.threads[j]? = some t → t.kind = .conn → t.completed = true → t.pc = .parked a → a = true) ∧
     (∀ (j : Nat) (t : Thread) (sid : Nat) (a : Bool), s.threads[j]? = some t → t.kind = .recv sid → s.closed sid = true →
         t.pc = .parked a → a = true) ∧
     (s.recvNotified = true → ∀ (j : Nat) (t : Thread) (a : Bool), s.threads[j]? = some t → isRecv t = true → t.pc = .parked a → a = true) ∧
+    (s.path = .stopped ∨ s.path = .io → s.recvNotified = true) ∧
+    (∀ a, s.td = .ioWaiting a → s.recvNotified = true) ∧
     (s.td = .waiting false ∨ s.td = .ioWaiting false → gate s = false) :=
-  let I := reach_inv hr
-  ⟨I.Wc, I.Wd, I.Wr, I.Wn, I.Wt⟩
+  let I := (reach_inv hr).1
+  let J := (reach_inv hr).2
+  ⟨I.Wc, I.Wd, I.Wr, I.Wn, J.PN, fun a h => J.PN (Or.inr (J.PI (by rw [h]; rfl))), I.Wt⟩
 
-/-- **T1 (teardown completes).** When no thread is inside a call any more the gate is open: the destructor's next predicate
+/-- **T1 (the gate opens).** When no thread is inside a call any more the gate is open: the destructor's next predicate
 check succeeds. -/
 theorem T1_gate_opens (s : State) (hr : Reach s)
     (hn : ∀ (j : Nat) (t : Thread), s.threads[j]? = some t → inside t.pc = false) : gate s = true :=
-  gate_of_no_inside (reach_inv hr) hn
+  gate_of_no_inside (reach_inv hr).1 hn
+
+/-- **T1 (no dead end; destruction completes).** In every reachable state in which destruction has begun — on whichever of the
+three branches — and `Impl` is not yet gone: (a) SOME thread can take a step that respects the contract and strictly decreases
+`rank` (steps still owed by the threads inside calls, the destructor and the I/O thread), and (b) there is a schedule respecting
+the contract, at most `rank s` steps long, after which `Impl` is destroyed. So no schedule, however adversarial so far, has led
+to a state from which teardown cannot finish (no deadlock, no stranded caller); that EVERY fair schedule finishes follows only
+with a fairness assumption on the scheduler and is not stated. -/
+theorem T1_teardown_completes (s : State) (hr : Reach s) (hb : s.td ≠ .idle ∨ s.dtorOn ≠ none) :
+    (s.td ≠ .destroyed → ∃ st, ok s st = true ∧ rank (step s st) < rank s) ∧
+    (∃ steps : List Step, Disciplined s steps ∧ steps.length ≤ rank s ∧ (run s steps).td = .destroyed ∧
+        (run s steps).uaf = false) := by
+  have I := reach_inv hr
+  have hb' : begun s := by
+    rcases hb with hb | hb
+    · left; intro h0; apply hb; cases htd : s.td <;> simp [htd, shape] at h0; rfl
+    · right; exact hb
+  refine ⟨fun hnd => ?_, ?_⟩
+  · obtain ⟨st, h1, h2, _⟩ := progress I.1 I.2 hb' hnd
+    exact ⟨st, h1, h2⟩
+  · obtain ⟨steps, hd, hl, hf⟩ := completes (rank s) s I.1 I.2 hb' (Nat.le_refl _)
+    have I' := run_inv steps s I.1 I.2 hd
+    exact ⟨steps, hd, hl, hf, I'.1.UAF⟩
+
+/-- **T1 (`stop()` completes).** In every reachable state in which a thread is inside `stop()`, there is a schedule of at most
+(open sessions + 2) steps — one close per session, the I/O thread's termination, the join — after which `stop()` has returned. -/
+theorem T1_stop_completes (s : State) (hr : Reach s) (hs : s.stopJoining = true) :
+    ∃ steps : List Step, steps.length ≤ s.live.length + 2 ∧ Disciplined s steps ∧ Ev.stopReturned ∈ (run s steps).log ∧
+      (run s steps).stopJoining = false := by
+  have J := (reach_inv hr).2
+  obtain ⟨h0, _, hrun⟩ := J.SJ hs
+  have htd : s.td = .idle := by cases htd : s.td <;> simp [htd, shape] at h0; rfl
+  exact stop_completes s.live.length s (Nat.le_refl _) hs hrun htd
 
 /-- **T2 (counters gate destruction).** In every reachable state in which `teardownWaitOut` has returned (or `Impl` is gone) all
-three counters are 0 and no application thread is inside a call; `Impl` is destroyed only then; and NO schedule touches `Impl`
-after its destruction (`uaf` is unreachable). The counters count exactly the threads inside. -/
+three counters are 0 and no application thread is inside a counted call; `Impl` is destroyed only then; NO schedule touches `Impl`
+after its destruction (`uaf` is unreachable) — including the close handlers that run on the I/O thread after an I/O-thread
+self-destruct, the join returning into `stop()`, and the flusher that ran the destructor inside its data callback and unwinds
+afterwards (it is the one that deletes `Impl`, as its last action); at most one thread is such a flusher. The counters count
+exactly the threads inside. -/
 theorem T2_counters_gate_destruction (s : State) (hr : Reach s) :
-    s.uaf = false ∧ (s.implAlive = false → waitCompleted s.td = true) ∧
+    s.uaf = false ∧ (s.implAlive = false → s.td = .destroyed) ∧
     (waitCompleted s.td = true → gate s = true ∧ ∀ (j : Nat) (t : Thread), s.threads[j]? = some t → inside t.pc = false) ∧
+    (∀ (j : Nat) (t : Thread), s.threads[j]? = some t → t.pc = .fdtor → s.dtorOn = some j) ∧
     s.activeReceives = s.threads.countP countedRecv ∧ s.activeConnects = s.threads.countP countedConn ∧
     s.activeFlushes = s.threads.countP countedFlush := by
-  have I := reach_inv hr
-  exact ⟨I.UAF, I.IA, fun hw => ⟨gate_of_no_inside I (I.WC hw), I.WC hw⟩, I.CR, I.CC, I.CF⟩
+  have I := (reach_inv hr).1
+  have J := (reach_inv hr).2
+  refine ⟨I.UAF, I.IA, fun hw => ⟨gate_of_no_inside I (I.WC hw), I.WC hw⟩, ?_, I.CR, I.CC, I.CF⟩
+  intro j t hj hpc
+  have hfd : fdAt s.threads j = true := by rw [fdAt_of_get hj, hpc]; rfl
+  exact J.DT1 j hfd
 
 /-- **T3 (entry fence).** A call that performs its entry section after the fence was set returns ShuttingDown (`false` for
 setReadMode) in that very section: it does not park and no counter changes. -/
@@ -94,15 +188,17 @@ theorem T3_fence_rejects (s : State) (i : Nat) (t : Thread) (hi : s.threads[i]? 
   · cases k <;> simp
   all_goals (unfold touch; split <;> rfl)
 
-/-- **T4 (enqueue after close).** Once `_cmdsClosed` is set `enqueue` returns false: nothing is queued (a promise-bearing command
-is recorded as rejected; `addListener` then returns ShuttingDown without waiting — skeleton fact). -/
+/-- **T4 (enqueue after close; both engines).** Once the closed flag is set `enqueue` returns false: nothing is queued (a
+promise-bearing command is recorded as rejected; `addListener` then returns ShuttingDown without waiting — skeleton fact). -/
 theorem T4_enqueue_after_close (s : EngineQueue.State) (c : EngineQueue.Cmd) (hc : s.closed = true) :
     (EngineQueue.step s (.enqueue c)).cmds = s.cmds ∧ (EngineQueue.step s (.enqueue c)).accepted = s.accepted := by
-  cases c <;> simp [EngineQueue.step, EngineQueue.doEnqueue, hc]
+  cases c <;> simp [EngineQueue.step, EngineQueue.doEnqueue, hc, EngineQueue.f_enq]
 
-/-- **T4 (promises).** For every schedule of enqueuers and the I/O thread: a listener promise is never fulfilled twice; a rejected
-promise is never fulfilled; and when the I/O thread has terminated every accepted promise has been fulfilled exactly once — by
-the dispatch (either arm) or by the residual drain — so a synchronous `addListener` never blocks for ever. -/
+/-- **T4 (promises; both engines).** For every schedule of enqueuers and the I/O thread — `_running` cleared by `stop()`'s CAS,
+by `detachForTermination()` with no command at all, or by a dispatched Shutdown command; any number of stop/start cycles —: a
+listener promise is never fulfilled twice; a rejected promise is never fulfilled; and whenever the I/O thread has terminated every
+accepted promise has been fulfilled exactly once — by the dispatch (either arm) or by the residual drain — so a synchronous
+`addListener` never blocks for ever. -/
 theorem T4_promise_exactly_once (steps : List EngineQueue.Step) (hd : EngineQueue.Disciplined EngineQueue.init steps) (p : Nat) :
     let s := EngineQueue.run EngineQueue.init steps
     s.fulfilled p ≤ 1 ∧ (p ∈ s.rejected → s.fulfilled p = 0) ∧
@@ -119,21 +215,63 @@ theorem T4_promise_exactly_once (steps : List EngineQueue.Step) (hd : EngineQueu
     simp [EngineQueue.pending, h1.2, h2, h3] at hC
     exact hC
 
-/-- **T5 (callback confinement).** A close callback is only ever emitted by a step of the I/O thread while that thread exists;
-the data callback of a flush only by the flushing thread's own step. -/
-theorem T5_callbacks_confined (s : State) (st : Step) (sid : Nat) (h : Ev.cbClose sid ∈ (step s st).log) :
-    Ev.cbClose sid ∈ s.log ∨ (s.ioAlive = true ∧ ((∃ x, st = .ioCloseSess x) ∨ (∃ x, st = .ioDrain x))) :=
-  cb_confined s st sid h
+/-- **T5 (callback confinement, by counting).** Any state, any step: the number of close callbacks logged for a session grows by
+at most one, and grows only in a step of the I/O thread, while that thread exists, for a session the engine still has open; the
+number of data callbacks logged for a flusher grows by at most one, and grows only in that flusher's own loop step, before the
+fence, while it is between two sections of its flush loop. -/
+theorem T5_callbacks_confined (s : State) (st : Step) :
+    (∀ sid, (step s st).log.count (.cbClose sid) = s.log.count (.cbClose sid) ∨
+       ((step s st).log.count (.cbClose sid) = s.log.count (.cbClose sid) + 1 ∧ s.ioAlive = true ∧ s.live.contains sid = true ∧
+         (st = .ioCloseSess sid ∨ st = .ioDrain (some sid)))) ∧
+    (∀ i, (step s st).log.count (.cbData i) = s.log.count (.cbData i) ∨
+       ((step s st).log.count (.cbData i) = s.log.count (.cbData i) + 1 ∧ s.shuttingDown = false ∧
+         (∃ t, s.threads[i]? = some t ∧ t.pc = .floop) ∧ st = .flushStep i true)) :=
+  ⟨cbClose_step s st, cbData_step s st⟩
+
+/-- **T5 (one close callback per session).** In every reachable state each session's close callback has run at most once, and
+not at all while the engine still has the session open. -/
+theorem T5_each_close_once (s : State) (hr : Reach s) (sid : Nat) :
+    s.log.count (.cbClose sid) ≤ 1 ∧ (sid ∈ s.live → s.log.count (.cbClose sid) = 0) :=
+  (reach_inv hr).2.CL sid
 
 /-- **T5 (nothing after stop).** In every reachable state: if `stop()` has returned to its (non-callback) caller the I/O thread has
-terminated, hence no later step of any schedule emits a close callback. -/
+terminated, hence no later step of any schedule runs a close callback. (The data callback of a flush runs synchronously inside
+the caller's own `setReadMode` call, on the caller's thread; it is not an asynchronous delivery and is not covered by this clause.) -/
 theorem T5_no_callback_after_stop (s : State) (hr : Reach s) (hs : Ev.stopReturned ∈ s.log) :
-    s.ioAlive = false ∧ ∀ (st : Step) (sid : Nat), Ev.cbClose sid ∈ (step s st).log → Ev.cbClose sid ∈ s.log := by
-  have hio := (reach_inv hr).IO1 hs
-  refine ⟨hio, fun st sid h => ?_⟩
-  rcases cb_confined s st sid h with h1 | ⟨h1, _⟩
+    s.ioAlive = false ∧ ∀ (st : Step) (sid : Nat), (step s st).log.count (.cbClose sid) = s.log.count (.cbClose sid) := by
+  have hio := (reach_inv hr).1.IO1 hs
+  refine ⟨hio, fun st sid => ?_⟩
+  rcases cbClose_step s st sid with h1 | ⟨_, h1, _⟩
   · exact h1
-  · simp [hio] at h1
+  · rw [hio] at h1; cases h1
+
+/-- **T5 (nothing after destruction).** In every reachable state in which `Impl` is gone, no step of any schedule runs a close
+callback or a flush data callback (counts unchanged), on any of the three destruction branches. -/
+theorem T5_no_callback_after_destroy (s : State) (hr : Reach s) (hd : s.implAlive = false) (st : Step) :
+    (∀ sid, (step s st).log.count (.cbClose sid) = s.log.count (.cbClose sid)) ∧
+    (∀ i, (step s st).log.count (.cbData i) = s.log.count (.cbData i)) := by
+  have I := (reach_inv hr).1
+  have J := (reach_inv hr).2
+  have htd := I.IA hd
+  have hio := J.DIO (Or.inr (Or.inr (Or.inr (by rw [htd]; rfl))))
+  refine ⟨fun sid => ?_, fun i => ?_⟩
+  · rcases cbClose_step s st sid with h1 | ⟨_, h1, _⟩
+    · exact h1
+    · rw [hio] at h1; cases h1
+  · rcases cbData_step s st i with h1 | ⟨_, _, ⟨t, ht, hpc⟩, _⟩
+    · exact h1
+    · have := I.WC (by rw [htd]; rfl) i t ht
+      rw [hpc] at this; simp [inside] at this
+
+/-- **T6 (I/O-thread guards).** A synchronous operation (connectSync, receiveSync, sendSync, setReadMode) called from a callback on
+the I/O thread is refused by a throw whatever `_running` is — in particular from a close callback of the shutdown drain — and in
+no reachable state has the I/O thread entered a blocking operation of its own transport. -/
+theorem T6_io_thread_guards (s : State) (op : SyncOp) :
+    (ioFree s = true → (step s (.ioSyncCall op)).log = s.log ++ [.refused op] ∧ (step s (.ioSyncCall op)).ioSelfBlock = s.ioSelfBlock) ∧
+    (Reach s → s.ioSelfBlock = false) := by
+  refine ⟨fun hf => ?_, fun hr => (reach_inv hr).2.SB⟩
+  simp only [step, doIoSyncCall, hf, guard_ok, Bool.true_or, if_true]
+  exact ⟨trivial, by unfold touch; split <;> rfl⟩
 
 /-! ### non-vacuity -/
 /-- a receiver on an open session, a connector and a flusher, destroyed on the NORMAL path: the schedule is disciplined, every
@@ -144,7 +282,40 @@ def demoSteps : List Step :=
    .wake 1 false, .flushStep 2 false, .flushStep 2 false, .flushStep 2 false, .wake 0 false, .tdWake, .tdDestroy]
 example : disciplinedB (mk demoThreads [1]) demoSteps = true := by decide
 example : (run (mk demoThreads [1]) demoSteps).log =
-    [.cbClose 1, .ret 1 .shuttingDown, .cbData 2, .ret 2 (.flushed false), .ret 0 .peerClosed, .destroyed] := by decide
+    [.cbData 2, .cbClose 1, .ret 1 .shuttingDown, .ret 2 (.flushed false), .ret 0 .peerClosed, .destroyed] := by decide
 example : (run (mk demoThreads [1]) demoSteps).uaf = false ∧ (run (mk demoThreads [1]) demoSteps).implAlive = false := by decide
+
+/-- FC05a: the sole owner releases the transport inside the data callback of its own flush while a receiver is parked on a
+session the engine does not know: the destructor runs on the flusher, waits out the receiver, and `Impl` is deleted when the
+flush loop has unwound -/
+def demoFlushSelf : List Step :=
+  [.enter 0, .enter 1, .flushStep 0 true, .flushSelfDestruct 0, .tdBegin, .tdStop, .ioDrain none, .tdJoined, .wake 1 true,
+   .tdWake, .tdOrphan, .flushStep 0 false]
+example : disciplinedB (mk [{ kind := .flush }, { kind := .recv 7 }] []) demoFlushSelf = true := by decide
+example : (run (mk [{ kind := .flush }, { kind := .recv 7 }] []) demoFlushSelf).log =
+    [.cbData 0, .ret 1 .shuttingDown, .ret 0 (.flushed false), .destroyed] := by decide
+example : (run (mk [{ kind := .flush }, { kind := .recv 7 }] []) demoFlushSelf).uaf = false := by decide
+
+/-- the sole owner releases the transport inside a close callback on the I/O thread while a receiver and a connector are parked:
+both are notified by the destructor's entry section, the drain closes the remaining session, the epilogue deletes `Impl` -/
+def demoIoSelf : List Step :=
+  [.enter 0, .enter 1, .ioSelfDestruct, .wake 0 false, .wake 1 false, .tdWake, .ioSyncCall .receiveSync, .ioDrain (some 1), .ioDrain none]
+example : disciplinedB (mk [{ kind := .recv 9 }, { kind := .conn }] [1]) demoIoSelf = true := by decide
+example : (run (mk [{ kind := .recv 9 }, { kind := .conn }] [1]) demoIoSelf).log =
+    [.ret 0 .shuttingDown, .ret 1 .shuttingDown, .refused .receiveSync, .cbClose 1, .destroyed] := by decide
+
+/-- engine queue: promise 1 fulfilled by the dispatch, `_running` cleared by detachForTermination (no Shutdown command), promises 2
+and 3 accepted after the loop left and failed by the residual drain, promise 4 refused by the closed queue; the I/O thread exits;
+after a restart promise 5 is accepted and dispatched again -/
+def demoQueue : List EngineQueue.Step :=
+  [.enqueue (.addListener 1), .swap, .dispatch false, .enqueue (.addListener 2), .clearRunning, .loopExit,
+   .enqueue (.addListener 3), .closeQueue, .enqueue (.addListener 4), .failResidual, .failResidual, .failResidual,
+   .restart, .enqueue (.addListener 5), .swap, .dispatch true]
+example : EngineQueue.disciplinedB EngineQueue.init demoQueue = true := by decide
+example : let s := EngineQueue.run EngineQueue.init (demoQueue.take 12)
+    s.phase = .exited ∧ s.accepted = [3, 2, 1] ∧ s.rejected = [4] ∧ (s.fulfilled 1, s.fulfilled 2, s.fulfilled 3, s.fulfilled 4) = (1, 1, 1, 0) := by
+  decide
+example : let s := EngineQueue.run EngineQueue.init demoQueue
+    s.phase = .loop ∧ s.closed = false ∧ s.fulfilled 5 = 1 := by decide
 
 end Iora.C05
